@@ -55,6 +55,10 @@ pub struct RlCase {
     pub clones: u8,
     pub callers: Vec<RlCaller>,
     pub order: Vec<u8>,
+    /// executor stall: from `start` (relative to the period) nothing is polled for `len`; timers
+    /// that fall due in between are seen late, arrivals inside the stall happen at its end
+    #[serde(default)]
+    pub stall: Option<(Rel, Rel)>,
 }
 
 /// Periods P (ms) for which the f64 quotient (2P)/P evaluates below 2.0 (sliding-counter bucket
@@ -114,9 +118,10 @@ fn case_strategy(tier: Tier) -> BoxedStrategy<RlCase> {
         1u8..=3,
         prop::collection::vec(caller, 1..=callers_hi),
         prop::collection::vec(any::<u8>(), 0..=40),
+        prop_oneof![3 => Just(None), 1 => (rel(10), rel(5)).prop_map(Some)],
     )
         .prop_map(
-            |(window, limit, period, timeout, clones, callers, order)| RlCase {
+            |(window, limit, period, timeout, clones, callers, order, stall)| RlCase {
                 window,
                 limit,
                 period,
@@ -124,6 +129,7 @@ fn case_strategy(tier: Tier) -> BoxedStrategy<RlCase> {
                 clones,
                 callers,
                 order,
+                stall,
             },
         )
         .boxed()
@@ -238,7 +244,20 @@ async fn interp(case: &RlCase) -> Verdict {
         acc += c.gap.ms(p);
         at[i] = acc;
     }
-    let horizon = acc + timeout + 3 * p + 25;
+    // executor stall [s0, s1): arrivals (and cancellations) inside it take place at s1
+    let stall: Option<(u64, u64)> = case.stall.and_then(|(a, l)| {
+        let (s0, len) = (a.ms(p).max(1), l.ms(p));
+        (len >= 2).then_some((s0, s0 + len))
+    });
+    if let Some((s0, s1)) = stall {
+        for a in at.iter_mut() {
+            if *a > s0 && *a < s1 {
+                *a = s1;
+            }
+        }
+    }
+    let overlaps_stall = |from: u64, to: u64| stall.map_or(false, |(s0, s1)| from < s1 && to >= s0);
+    let horizon = at.iter().copied().max().unwrap_or(0).max(stall.map_or(0, |s| s.1)) + timeout + 3 * p + 25;
     let mut task: Vec<Option<usize>> = vec![None; n];
     let mut cancelled_waiting = vec![false; n];
     let mut cancelled = vec![false; n];
@@ -251,10 +270,19 @@ async fn interp(case: &RlCase) -> Verdict {
         })
     };
 
-    for t in 0..=horizon {
+    let mut t = 0u64;
+    while t <= horizon {
         if t > 0 {
+            if let Some((s0, s1)) = stall {
+                if t == s0 + 1 {
+                    // nothing runs until s1: jump there in one go
+                    crate::vclock::advance_ms(s1 - s0 - 1);
+                    t = s1;
+                }
+            }
             sim.begin_instant().await;
         }
+        debug_assert_eq!(sim::now(), t);
         for i in 0..n {
             if at[i] == t {
                 let req = Req {
@@ -270,7 +298,13 @@ async fn interp(case: &RlCase) -> Verdict {
         }
         for i in 0..n {
             if let (Some(d), Some(tk)) = (case.callers[i].cancel_after, task[i]) {
-                if at[i] + d == t && sim.state(tk) == TaskState::Live {
+                let mut ct = at[i] + d;
+                if let Some((s0, s1)) = stall {
+                    if ct > s0 && ct < s1 {
+                        ct = s1;
+                    }
+                }
+                if ct == t && sim.state(tk) == TaskState::Live {
                     let ent = log.with(|l| admitted_at(l, i).is_some());
                     cancelled[i] = true;
                     cancelled_waiting[i] = !ent;
@@ -286,7 +320,7 @@ async fn interp(case: &RlCase) -> Verdict {
             if let Some(tk) = task[i] {
                 if sim.state(tk) == TaskState::Live && admitted_at(&snap, i).is_none() {
                     waiting += 1;
-                    if t >= at[i] + timeout {
+                    if t >= at[i] + timeout && !overlaps_stall(at[i], at[i] + timeout) {
                         v.c15.push(format!(
                             "t={t}: caller {i} arrived at {} and is still undecided, timeout_duration={} ms",
                             at[i], timeout
@@ -299,6 +333,7 @@ async fn interp(case: &RlCase) -> Verdict {
         if !v.c15.is_empty() {
             break;
         }
+        t += 1;
     }
 
     let snap = log.snapshot();
@@ -364,7 +399,7 @@ async fn interp(case: &RlCase) -> Verdict {
             if a > at[i] {
                 waited += 1;
             }
-            if a > at[i] + timeout {
+            if a > at[i] + timeout && !overlaps_stall(at[i], at[i] + timeout) {
                 v.c15.push(format!(
                     "caller {i} arrived at {} and was admitted at {a}, later than timeout_duration={} ms",
                     at[i], timeout
@@ -382,7 +417,7 @@ async fn interp(case: &RlCase) -> Verdict {
                         "caller {i} was rejected (RateLimited) but its request reached the inner service"
                     ));
                 }
-                if t > at[i] + timeout {
+                if t > at[i] + timeout && !overlaps_stall(at[i], at[i] + timeout) {
                     v.c15.push(format!(
                         "caller {i} arrived at {} and was rejected at {t}, later than timeout_duration={} ms",
                         at[i], timeout
@@ -452,10 +487,26 @@ async fn interp(case: &RlCase) -> Verdict {
         }
         let last_before = activity.iter().rev().find(|&&a| a < t).copied();
         // also nobody may be waiting across the gap: every earlier caller decided before t - 2p
+        // and nobody may have been waiting across the gap (possible when the executor stalled)
+        let someone_waiting = (0..n).any(|j| {
+            at[j] < t && {
+                let decided = snap
+                    .iter()
+                    .filter_map(|e| match e {
+                        Ev::Enter { t: te, req, .. } if req.id == j as u32 => Some(*te),
+                        Ev::Resolve { t: tr, task: tk, .. } if Some(*tk) == task[j] => Some(*tr),
+                        Ev::Cancel { t: tc, task: tk } if Some(*tk) == task[j] => Some(*tc),
+                        _ => None,
+                    })
+                    .min();
+                decided.map_or(true, |d| d >= t)
+            }
+        });
         let idle = match last_before {
             Some(a) => a + 2 * p <= t,
             None => true,
-        } && t >= 2 * p;
+        } && t >= 2 * p
+            && !someone_waiting;
         if idle {
             idle_arrivals += 1;
             // the next `limit` arrivals, grouped by instant (order inside one instant is free)
@@ -506,6 +557,9 @@ async fn interp(case: &RlCase) -> Verdict {
     }
     if cancelled_waiting.iter().any(|&c| c) {
         v.classes.push("cancel_while_waiting");
+    }
+    if stall.is_some() {
+        v.classes.push("executor_stall");
     }
     v.classes.push(match case.window {
         0 => "fixed",
